@@ -344,7 +344,7 @@ func checkText(c textCase) error {
 	if !v.fq {
 		cls = "not-fq"
 	}
-	pbt.Note([]byte(s), esc || near, cls, d.class())
+	pbt.Note([]byte(s), esc || near, cls, d.class(), highClass(v.name))
 	if esc || near {
 		pbt.Sample(cls, s)
 	}
